@@ -27,6 +27,12 @@ const F_MISSING_R2: u32 = 15;
 const F_SURPLUS_R1: u32 = 16;
 const F_SURPLUS_R2: u32 = 17;
 const F_NONE: u32 = 0; // control: no fault, everything accepted
+// Kinds 18/19 are NOT part of the case list: part3 documents "round1_packages must be the same used in part2()", so an
+// equivocating sender whose wrong-length commitment reaches part3 only is outside the library's contract. On the unchanged
+// tree part3 accepts such input (it does not re-check commitment lengths; sum_commitments truncates): recorded in DESIGN.md
+// as an observation, not demanded here (the code below stays for `--case` experiments).
+const F_LEN_SHORT_P3: u32 = 18; // part2 saw the honest package; part3 is handed a commitment one entry short, with a share consistent with it
+const F_LEN_LONG_P3: u32 = 19; // ... one entry long, with a share consistent with it
 
 pub fn cases(thorough: bool, seed: u64) -> Vec<Params> {
     let mut out = vec![];
@@ -76,6 +82,7 @@ pub fn run<C: Ciphersuite, L: Lab<C>>(lab: &mut L, p: &Params) {
     // where the fault must be detected: 2 = part2, 3 = part3; attributable faults must name the sender
     let (stage, attributable, what): (u8, bool, &str) = match p.variant {
         F_NONE => (0, false, "no fault"),
+        F_LEN_SHORT_P3 | F_LEN_LONG_P3 => (3, false, "wrong-length commitment handed to part3 only"),
         F_MU => {
             let d = lab.adv_scalar("delta");
             lab.assume_ne_s(d, zero::<C>(), "the proof response is altered");
@@ -195,6 +202,40 @@ pub fn run<C: Ciphersuite, L: Lab<C>>(lab: &mut L, p: &Params) {
         }
     };
 
+    // ---- faults that appear only in what part3 is handed (an equivocating sender): part2 runs on the honest set
+    if matches!(p.variant, F_LEN_SHORT_P3 | F_LEN_LONG_P3) {
+        let honest_r1 = r1.clone();
+        let Ok((s2, _)) = dkg::part2(run.r1_secret[&me].clone(), &honest_r1) else {
+            lab.check(false, "part2 accepts the honest round-one set");
+            lab.leave();
+            return;
+        };
+        let mut cs: Vec<CoefficientCommitment<C>> = honest.commitment().coefficients().to_vec();
+        let mut cf = coeffs.clone();
+        let what2 = if p.variant == F_LEN_SHORT_P3 {
+            cs.pop();
+            cf.pop();
+            "part3 is handed a commitment one entry short (with a share consistent with it)"
+        } else {
+            let extra = lab.adv_scalar("extra coefficient");
+            lab.assume_ne_s(extra, zero::<C>(), "the extra coefficient is non-zero");
+            cs.push(CoefficientCommitment::new(g::<C>() * extra));
+            cf.push(extra);
+            "part3 is handed a commitment one entry long (with a share consistent with it)"
+        };
+        if cs.is_empty() {
+            lab.leave();
+            return;
+        }
+        let mut r1p = honest_r1.clone();
+        r1p.insert(sender, round1::Package::new(VerifiableSecretSharingCommitment::new(cs), pok));
+        r2.insert(sender, round2::Package::new(SigningShare::from_coefficients(&cf, me)));
+        let m = lab.mark();
+        let p3 = dkg::part3(&s2, &r1p, &r2);
+        lab.expect_reject(m, p3.is_ok(), &format!("part3 rejects instead of producing key material: {what2}"));
+        lab.leave();
+        return;
+    }
     // ---- the receiver's part2
     let r1_for_part3 = r1.clone();
     let m = lab.mark();
